@@ -430,7 +430,11 @@ func (v *visitor) checkFunc(fn reflect.Type, method bool, node ast.Node, name st
 		// Integer literals (and arithmetic on them) adapt to a numeric parameter
 		// like Go's untyped constants; any other argument keeps its own type
 		// and must be assignable.
-		if isIntegerOrArithmeticOperation(arg) && isInteger(t) && !isInterface(t) && isNumber(in) && !isInterface(in) {
+		if isIntegerOrArithmeticOperation(arg) && hasDynamicOperand(arg) {
+			// The kind of the result is only known at run time: literals
+			// must keep their own type, as in an untyped compilation.
+			t = interfaceType
+		} else if isIntegerOrArithmeticOperation(arg) && isInteger(t) && !isInterface(t) && isNumber(in) && !isInterface(in) {
 			t = in
 			setTypeForIntegers(arg, t)
 		}
